@@ -161,6 +161,22 @@ pub fn leading_ws(r: &mut Rng) -> String {
 	(0..n).map(|_| *r.pick(&jgen::WS)).collect()
 }
 
+/// A structurally mutated request object (always valid JSON; no byte-level damage).
+pub fn mutated_object(r: &mut Rng, nonce: &str) -> String {
+	let mut m = valid_members(r, nonce);
+	match r.below(8) {
+		0 => m.jsonrpc = None,
+		1 => m.jsonrpc = Some(r.pick(&["\"1.0\"", "2.0", "null", "\"2.00\""]).to_string()),
+		2 => m.method = None,
+		3 => m.method = Some(jgen::json_text(r, 1)),
+		4 => m.id = Some(jgen::json_text(r, 1)),
+		5 => m.params = Some(jgen::json_text(r, 2)),
+		6 => m.extra.push((format!("\"x{}\"", r.below(9)), jgen::json_text(r, 1))),
+		_ => {}
+	}
+	m.render(r)
+}
+
 /// Structural mutations of a request.
 pub fn mutated(r: &mut Rng, nonce: &str) -> Vec<u8> {
 	let mut m = valid_members(r, nonce);
